@@ -271,6 +271,13 @@ def parse_proxy_headers(
             host, port = forwarded_host.rsplit(":", 1)
             host, port = host.strip(), str(port)
 
+            if not host:
+                raise MalformedProxyHeader(
+                    "Forwarded Host=" if forwarded else "X-Forwarded-Host",
+                    "empty host",
+                    forwarded_host,
+                )
+
             # We trust the port in the Forwarded Host/X-Forwarded-Host over
             # X-Forwarded-Port, or whatever we got from Forwarded
             # Proto/X-Forwarded-Proto.
